@@ -23,6 +23,7 @@ type EncOpts struct {
 	UpperHex     bool                                  // upper-case hex digits in percent escapes
 	LowerKeys    bool                                  // lower-case keys in the gRPC-Web trailer block / Connect metadata JSON
 	OmitDetails  bool                                  // gRPC: no grpc-status-details-bin when there are no details
+	NameIdentity bool                                  // when nothing is compressed, name the "identity" encoding explicitly instead of omitting the header
 }
 
 func ContentType(p Proto, streaming bool, codec string, bare bool) string {
@@ -152,12 +153,16 @@ func EncodeResponse(p Proto, streaming bool, codec string, o EncOpts, msgs [][]b
 			if o.CompressMsg != nil && o.CompressMsg(0) && o.Encoding != "" && o.Compress != nil {
 				data = o.Compress(o.Encoding, data)
 				header["Content-Encoding"] = []string{o.Encoding}
+			} else if o.NameIdentity {
+				header["Content-Encoding"] = []string{"identity"}
 			}
 			return 200, header, data, nil
 		}
 		copyMeta(header, hdr, false)
 		if o.Encoding != "" {
 			header["Connect-Content-Encoding"] = []string{o.Encoding}
+		} else if o.NameIdentity {
+			header["Connect-Content-Encoding"] = []string{"identity"}
 		}
 		for i, m := range msgs {
 			body = append(body, frame(i, m)...)
@@ -177,6 +182,8 @@ func EncodeResponse(p Proto, streaming bool, codec string, o EncOpts, msgs [][]b
 	default:
 		if o.Encoding != "" {
 			header["Grpc-Encoding"] = []string{o.Encoding}
+		} else if o.NameIdentity {
+			header["Grpc-Encoding"] = []string{"identity"}
 		}
 		tf := grpcTrailerFields(e, o)
 		if o.TrailersOnly && len(msgs) == 0 {
@@ -232,11 +239,15 @@ func RequestHeader(p Proto, streaming bool, codec string, o EncOpts, timeout str
 	copyMeta(h, meta, false)
 	switch p {
 	case Connect:
-		if o.Encoding != "" {
+		enc := o.Encoding
+		if enc == "" && o.NameIdentity {
+			enc = "identity"
+		}
+		if enc != "" {
 			if streaming {
-				h["Connect-Content-Encoding"] = []string{o.Encoding}
+				h["Connect-Content-Encoding"] = []string{enc}
 			} else {
-				h["Content-Encoding"] = []string{o.Encoding}
+				h["Content-Encoding"] = []string{enc}
 			}
 		}
 		if timeout != "" {
@@ -248,6 +259,8 @@ func RequestHeader(p Proto, streaming bool, codec string, o EncOpts, timeout str
 		}
 		if o.Encoding != "" {
 			h["Grpc-Encoding"] = []string{o.Encoding}
+		} else if o.NameIdentity {
+			h["Grpc-Encoding"] = []string{"identity"}
 		}
 		if timeout != "" {
 			h["Grpc-Timeout"] = []string{timeout}
